@@ -239,8 +239,14 @@ def verify_function(eng):
         eng.spec_mode = True
         try:
             st.env[nm] = eng.ev(parse_clause(text), st)
+            st.env["old_" + nm] = st.env[nm]
         finally:
             eng.spec_mode = False
+    if c.yield_type is not None:
+        from .types import TSeq as _TS
+        from . import seqs as _SQ
+
+        st.yielded = V(_TS(c.yield_type), _SQ.empty(_TS(c.yield_type).sort()))
     for r in c.requires:
         st.assume(eng.spec_bool(r, st))
     # vacuity guard: requires (+ type invariants) satisfiable
